@@ -495,3 +495,80 @@ Proof.
   destruct (key_leaves_sound rfc _ _ _ [] [] x (le_n _) Hwt Hin) as [[]|[p [Hp Hx]]].
   exists p. rewrite <- Hdfs. auto.
 Qed.
+
+(* ------------------------------------------------------------------ list entries: one per key set *)
+
+(* the entries the children of a node contribute to the list called n, in order *)
+Definition entries_of (rfc : bool) (n : str) (cs : list (str * trie)) : list node :=
+  flat_map (fun et => match snd et with
+                      | TLeaf _ => []
+                      | TNode _ => match classify (fst et) with
+                                   | EKeyed n' K => if eqb_str n n' then [NMap (render_cs rfc (snd et) (keymap_node K))] else []
+                                   | _ => []
+                                   end
+                      end) cs.
+
+Definition arr_of (n : str) (m : amap) : list node := match mget n m with Some (NArr l) => l | _ => [] end.
+
+Definition keyed_child (et : str * trie) : Prop :=
+  match snd et with TNode _ => match classify (fst et) with EKeyed _ _ => True | _ => False end | TLeaf _ => False end.
+
+Lemma fold_entries rfc n cs : forall m,
+  (forall et, In et cs -> child_name et = n -> keyed_child et) ->
+  (mget n m = None \/ exists l, mget n m = Some (NArr l)) ->
+  arr_of n (fold_left (fun m et => put_child rfc et m) cs m) = arr_of n m ++ entries_of rfc n cs /\
+  (mget n (fold_left (fun m et => put_child rfc et m) cs m) = None \/
+   exists l, mget n (fold_left (fun m et => put_child rfc et m) cs m) = Some (NArr l)).
+Proof.
+  induction cs as [|et cs IH]; intros m Hk Hm; cbn [fold_left].
+  - unfold entries_of. cbn. rewrite app_nil_r. auto.
+  - assert (Hstep : arr_of n (put_child rfc et m) = arr_of n m ++ entries_of rfc n [et] /\
+                    (mget n (put_child rfc et m) = None \/ exists l, mget n (put_child rfc et m) = Some (NArr l))).
+    { destruct (str_eq_dec n (child_name et)) as [Heq|Hne].
+      - specialize (Hk et (or_introl eq_refl) (eq_sym Heq)). unfold keyed_child in Hk.
+        unfold put_child, entries_of, child_name in *. cbn [flat_map fst snd]. destruct (snd et) as [v|cs']; [contradiction|].
+        destruct (classify (fst et)) as [|n' K|]; [contradiction| |contradiction]. subst n'. rewrite eqb_str_refl. rewrite app_nil_r.
+        unfold arr_of, arr_append. destruct Hm as [Hm | [l Hm]]; rewrite Hm; rewrite mget_mset_same.
+        + split; [reflexivity | right; eexists; reflexivity].
+        + split; [reflexivity | right; eexists; reflexivity].
+      - rewrite put_child_other by exact Hne. unfold arr_of. rewrite put_child_other by exact Hne.
+        split; [|exact Hm]. unfold entries_of, child_name in *. cbn [flat_map]. destruct (snd et) as [v|cs']; [rewrite app_nil_r; reflexivity|].
+        destruct (classify (fst et)) as [|n' K|]; try (rewrite app_nil_r; reflexivity).
+        apply eqb_str_neq in Hne. rewrite Hne. rewrite app_nil_r. reflexivity. }
+    destruct Hstep as [Hs1 Hs2].
+    destruct (IH (put_child rfc et m)) as [H1 H2]; [intros et' Hin; apply Hk; right; exact Hin | exact Hs2 |].
+    split; [|exact H2]. rewrite H1, Hs1. rewrite <- app_assoc. f_equal.
+    unfold entries_of. cbn [flat_map]. rewrite app_nil_r. reflexivity.
+Qed.
+
+(* In the document of a well-formed trie node, the list called n consists of exactly one entry per keyed child
+   named n (so: one entry per key set, never split) *)
+Theorem render_entries rfc ks sp K0 cs n :
+  wf_trie rfc ks sp K0 (TNode cs) = true -> ~ In n (map fst K0) ->
+  (forall et, In et cs -> child_name et = n -> keyed_child et) ->
+  arr_of n (render_cs rfc (TNode cs) (keymap_node K0)) = entries_of rfc n cs.
+Proof.
+  intros Hwf Hni Hk. rewrite render_cs_node.
+  destruct (fold_entries rfc n cs (keymap_node K0) Hk) as [H _].
+  - left. apply mget_keymap_none. exact Hni.
+  - rewrite H. unfold arr_of. rewrite mget_keymap_none by exact Hni. reflexivity.
+Qed.
+
+(* ... and two different key sets give two entries that do not answer to each other's keys (never merged) *)
+Theorem entries_distinct rfc ks sp K0 cs ea ca eb cb n Ka Kb :
+  wf_trie rfc ks sp K0 (TNode cs) = true ->
+  In (ea, TNode ca) cs -> In (eb, TNode cb) cs ->
+  classify ea = EKeyed n Ka -> classify eb = EKeyed n Kb -> kv_eqb Ka Kb = false ->
+  full_match Ka (render_cs rfc (TNode ca) (keymap_node Ka)) /\
+  some_differs Kb (render_cs rfc (TNode ca) (keymap_node Ka)).
+Proof.
+  intros Hwf Ha Hb Hca Hcb Hne.
+  apply wf_trie_node in Hwf. destruct Hwf as [_ [_ Hall]]. rewrite Forall_forall in Hall.
+  pose proof (Hall _ Ha) as Hoa. pose proof (Hall _ Hb) as Hob. unfold child_ok in Hoa, Hob. cbn [fst snd] in Hoa, Hob.
+  rewrite Hca in Hoa. rewrite Hcb in Hob.
+  destruct Hoa as [_ [_ [Hnda [Hksa Hwfa]]]]. destruct Hob as [_ [_ [_ [Hksb _]]]].
+  apply wf_trie_node in Hwfa. destruct Hwfa as [_ [_ Halla]].
+  pose proof (render_full_match rfc ks (sp ++ [n]) Ka ca Hnda Halla) as Hfm.
+  split; [exact Hfm|].
+  apply (differs_after Ka Kb); auto. congruence.
+Qed.
